@@ -1,5 +1,6 @@
 import GmQuic.Drv.Core
 import GmQuic.Model.Frame
+import GmQuic.Model.FrameWF
 /-!
 Line driver for C05 (`C05` enc ops, `C05dec` decode-only ops, `C05ft` frame-type table), exact comparison.
 The canonical rendering of a frame value is the one of `harness/src/c05.rs` (`show`).
@@ -183,7 +184,9 @@ def step (_ : Unit) (op : List String) : Unit × String :=
       match enc f with
       | .ok _ bytes =>
         let input := bytes ++ tail
-        ((), s!"bytes={toHex bytes} size={Codec.sizeOf f} max={Codec.maxSizeOf f} {showDec input.length (decFrame pt input)}")
+        -- `wf=` ties the theorems' hypothesis to the generator's notion of a well-formed frame (the
+        -- frames on which the harness evaluates its monitors)
+        ((), s!"wf={b01 (wf f)} bytes={toHex bytes} size={Codec.sizeOf f} max={Codec.maxSizeOf f} {showDec input.length (decFrame pt input)}")
       | _ => ((), "PANIC")
     | _, _, _ => ((), "BAD enc args")
   | ["dec", pt, h] =>
